@@ -9,7 +9,7 @@ import random
 from harness import gen, tlc
 from harness.common import to_lit
 from harness.encode import Unencodable
-from harness.props import rtdrv, ruledrv
+from harness.props import rtdrv, ruledrv, c10, c17
 
 
 def run(rep, tier, seed):
@@ -26,6 +26,14 @@ def run(rep, tier, seed):
     for _ in range(6000 if tier == "quick" else 80000):
         doc = gen.document(rng, depth=2, strish=0.8)
         t = rtdrv.c11_tree(rng, rng.choice([0, 0, 1, 2, 3]), doc)
+        if rng.random() < 0.05:
+            # a data-path argument through a map-or-list part that has list_condition / map_condition of its own
+            c17.PARTS_GEN[0] = lambda rng_, doc_: [c10.mol_slots_part(rng_)] if rng_.random() < 0.6 else \
+                [gen.prim_part(rng_, doc_), c10.mol_slots_part(rng_)]
+            try:
+                t = c17.cross_cond(rng, doc)
+            finally:
+                c17.PARTS_GEN[0] = None
         ks = rtdrv.kinds_of(t)
         if "key" in ks and "index" in ks:
             continue
